@@ -46,8 +46,8 @@ def _getstr(base):
         contract_text=('#define V_BASE %d\n#define V_KC %d\n' % (base, base.bit_length() - 1)) + GS_CONTRACT, enforce=['__gmpn_get_str'],
         functions={'__gmpn_get_str': dict(
             inserts=[(r'i = un - 1;\s*for \(;;\)', r'long V_D = gh; \g<0>')],
-            loops={0: dict(scalars=['i', 'bit_pos', 'n1', 'n0'], havoc_targets=['s'], local_to_body=['V_w'], havoc=hv, slices=sl, inv=inv0, dec='((long) i * 64 + bit_pos)'),
-                   1: dict(scalars=['bit_pos'], havoc_targets=['s'], havoc=hv, slices=sl, inv=inv1, dec='(bit_pos + V_KC)'),
+            loops={0: dict(scalars=['i', 'bit_pos', 'n1', 'n0'], havoc_targets=['s'], local_to_body=['V_w'], havoc=hv, havoc_inv={'V_w': '(s - str)'}, slices=sl, inv=inv0, dec='((long) i * 64 + bit_pos)'),
+                   1: dict(scalars=['bit_pos'], havoc_targets=['s'], havoc=hv, havoc_inv={'V_w': '(s - str)'}, slices=sl, inv=inv1, dec='(bit_pos + V_KC)'),
                    2: 'unreachable', 3: 'unreachable', 4: 'unreachable', 5: 'unreachable'})},
         assumptions=['base %d only (one unit per power-of-two base 2..256); the general-base path (mpn_sb_get_str, mpn_dc_get_str, powers table) is unreachable here and has no unit' % base],
         harness='''void h_mpn_get_str_b%d (void) {
@@ -86,7 +86,7 @@ def _setstr(base):
         functions={'__gmpn_set_str': dict(
             inserts=[(r'int inp_digit = \*s;', r'\g<0> __CPROVER_assume (0 <= inp_digit && inp_digit < V_BASE);')],
             loops={0: dict(scalars=['size', 'next_bitpos', 'res_digit'], havoc_targets=['s'], local_to_body=['inp_digit'],
-                           havoc='{ long V_c = nondet_long (); __CPROVER_assume (0 <= V_c && (unsigned long) V_c < str_len); s = str + (str_len - 1 - V_c); }',
+                           havoc='{ long V_c = nondet_long (); __CPROVER_assume (0 <= V_c && (unsigned long) V_c < str_len); s = str + (str_len - 1 - V_c); }', havoc_inv={'V_c': '((str + str_len - 1) - s)'},
                            slices=[('rp', '((str_len * V_KC + 63) / 64) * 8')], inv=inv, dec='(s - str + 1)',
                            incr_as=dict(cond='s >= str', incr='s--', exit_when='s == str'))})},
         assumptions=['base %d only (one unit per power-of-two base); precondition "every input digit is below the base" is instantiated by a woven assume at the digit each iteration reads; the general-base path has no unit' % base,
